@@ -149,7 +149,7 @@ def run(ctx):
     res.require_instances("C13 obligations", len(res.obligations), 12)
 
 
-def check_short_input(rc: RuleCtx, rule: str, fi, extra_args=None) -> bool:
+def check_short_input(rc: RuleCtx, rule: str, fi, extra_args=None, allow=None, label: str = "") -> bool:
     """Every path that returns the knees argument itself (unfiltered) must be guarded by len(knees) <= 1:
     with two or more knees the selection rule has to be applied."""
     from ..intervals import int_bounds
@@ -175,13 +175,15 @@ def check_short_input(rc: RuleCtx, rule: str, fi, extra_args=None) -> bool:
             parts = g.a if g.kind == "or" else (g,)
             for part in parts:
                 lo, hi = int_bounds(part, sym("K"))
+                if (hi is None or hi > 1) and allow is not None and allow(ev, args, part):
+                    continue            # another situation in which nothing has to be filtered (stated by the caller)
                 if hi is None or hi > 1:
                     ok = False
                     res.violation(rule, fi.module, fi.name, fi.node,
                                   f"the knees are returned unfiltered under {part}, which admits two or more knees: the selection rule is skipped for them",
                                   str(part), "return knees only when len(knees) <= 1", construct="short input guard")
     if ok:
-        res.ok(rule, f"{fi.qualname}:short-input", f"{n} early return(s) of the input itself, each guarded by len(knees) <= 1")
+        res.ok(rule, f"{fi.qualname}:short-input{label}", f"{n} early return(s) of the input itself, each guarded by len(knees) <= 1 (or an allowed no-op situation)")
     return ok
 
 
